@@ -167,9 +167,12 @@ def byte_streams(rng, n, prefix):
     return out
 
 W_POINTS = ["cmd.before_handler", "cmd.after_handler", "log.write.begin", "log.write.after_cmd", "cmd.after_log"]
-R_POINTS = ["rewrite.begin", "pre.create.begin", "getstate.copy", "pre.create.after_state", "pre.create.after_truncate",
-            "pre.create.after_write", "pre.create.after_sync", "rewrite.after_preamble", "log.trunc.begin",
-            "log.trunc.after_truncate", "log.trunc.after_header", "log.trunc.after_sync", "rewrite.after_truncate"]
+R_POINTS = ["rewrite.begin", "pre.create.begin", "getstate.copy", "pre.create.after_state", "pre.create.after_create",
+            "pre.create.after_write", "pre.create.after_sync", "pre.create.after_rename", "rewrite.after_preamble",
+            "log.trunc.begin", "log.trunc.after_truncate", "log.trunc.after_generation", "log.trunc.after_header",
+            "log.trunc.after_sync", "rewrite.after_truncate"]
+# the failpoints at which a REWRITEAOF can be made to die (RWK): every one after the state copy
+K_POINTS = R_POINTS[3:]
 
 def concurrent(rng, sid, nbefore, first=None, pw=None, pr=None):
     """a write command and a REWRITEAOF on two goroutines: the first is parked at a point, the second runs
